@@ -7,6 +7,7 @@ let () = att_main
   ~mon_step:(fun c o r ->
     match o with
     | Dump -> None
+    | Op _ when String.trim r = "SKIPPED" -> None      (* after a FAULT the harness is gone: nothing to judge *)
     | Op op ->
         (match mstep10 c (Option.get !c10_mon) op (parse_out o r) with
          | (Ok, m') -> c10_mon := Some m'; None
